@@ -195,7 +195,7 @@ Definition spec_ok (c : case) : bool :=
       (len =? size) && (if n <? 2 ^ 16 then (dn =? n) && (doff =? len) && same else true)
   end.
 
-(* no open finding: F-C33-1 (Float(+-0.0) read back as Int 0) was fixed by /repo commit a939896 and
+(* no open finding: F-C33-1 (Float(+-0.0) read back as Int 0) was fixed by /repo commit d11dc56 and
    its witness is re-run on every check like any other case *)
 Definition known_class (c : case) : Z := 0.
 
